@@ -11,6 +11,7 @@ import (
 	"net/http"
 	"net/url"
 	"strings"
+	"sync"
 	"time"
 
 	"github.com/volatiletech/authboss/v3"
@@ -39,11 +40,11 @@ type Config struct {
 	// as the README describes: expire totp2fa sms2fa recovery.
 	Modules []string
 
-	JSON       bool // body reader reads JSON; requests are sent as JSON
-	Mount      string
-	NoMount    bool // Mount = ""
-	RootURL    string
-	Whitelist  []string
+	JSON        bool // body reader reads JSON; requests are sent as JSON
+	Mount       string
+	NoMount     bool // Mount = ""
+	RootURL     string
+	Whitelist   []string
 	OneTimeUser bool
 
 	LockAfter    int
@@ -63,6 +64,7 @@ type Config struct {
 	ProtFail authboss.MWRespondOnFailure
 
 	RegisterWhitelist []string // overrides the body reader's register whitelist when non-nil
+	ModuleList        bool     // wrap the authboss routes in authboss.ModuleListMiddleware
 	MailGoroutine     bool     // leave MailNoGoroutine=false (schedule engine only)
 	SMTPMailer        bool     // use defaults.SMTPMailer (through the vsmtp shim)
 }
@@ -108,6 +110,14 @@ type Stack struct {
 
 	// Point is called before every seam operation when non-nil (scheduler hook).
 	Point func(label string)
+	// Conc marks concurrent use (schedule engine / race pass): per-request
+	// bookkeeping and fault plans are off.
+	Conc bool
+	// FreeMu, when set, serialises the harness's own shared data in free-running
+	// (race detector) runs. It is never held across library code.
+	FreeMu *sync.Mutex
+	// RNGSel selects the deterministic random stream of the running logical thread.
+	RNGSel func() int
 
 	rng     *rngReader
 	lastErr string
@@ -119,6 +129,9 @@ func (s *Stack) seam(label string, notFound error) error {
 	if s.Point != nil {
 		s.Point(label)
 	}
+	if s.Conc {
+		return nil
+	}
 	idx := len(s.seamCalls)
 	s.seamCalls = append(s.seamCalls, label)
 	if idx == s.FaultAt || idx == s.FaultAt2 || (s.FaultLabel != "" && s.FaultLabel == label && len(s.faultFired) == 0) {
@@ -129,6 +142,15 @@ func (s *Stack) seam(label string, notFound error) error {
 		return ErrInjected
 	}
 	return nil
+}
+
+// guard serialises access to the harness's shared data in free-running mode.
+func (s *Stack) guard() func() {
+	if s.FreeMu == nil {
+		return func() {}
+	}
+	s.FreeMu.Lock()
+	return s.FreeMu.Unlock
 }
 
 // point is a scheduling point without fault injection.
@@ -145,12 +167,33 @@ type rngReader struct{ s *Stack }
 
 // Read produces the deterministic stream: block i = sha256("verif" || i).
 func (r *rngReader) Read(p []byte) (int, error) {
+	// crypto/rand is an environment call: a scheduling point before it, and one after the
+	// bytes have landed in the caller's buffer (the buffer may be shared between requests)
+	r.s.point("rand.Read")
+	defer r.s.point("rand.Read:done")
+	return r.read(p)
+}
+
+func (r *rngReader) read(p []byte) (int, error) {
+	defer r.s.guard()()
 	n := 0
 	for n < len(p) {
-		var b [13]byte
+		var b [17]byte
 		copy(b[:], "verif")
-		binary.BigEndian.PutUint64(b[5:], r.s.W.RNG)
-		r.s.W.RNG++
+		ctr := &r.s.W.RNG
+		if r.s.RNGSel != nil {
+			id := r.s.RNGSel()
+			if r.s.W.RNGs == nil {
+				r.s.W.RNGs = map[int]*uint64{}
+			}
+			if r.s.W.RNGs[id] == nil {
+				r.s.W.RNGs[id] = new(uint64)
+			}
+			ctr = r.s.W.RNGs[id]
+			binary.BigEndian.PutUint32(b[13:], uint32(id+1))
+		}
+		binary.BigEndian.PutUint64(b[5:], *ctr)
+		*ctr++
 		h := sha256.Sum256(b[:])
 		n += copy(p[n:], h[:])
 	}
@@ -164,6 +207,7 @@ type mailer struct{ s *Stack }
 
 func (m mailer) Send(_ context.Context, e authboss.Email) error {
 	m.s.point("mailer.Send")
+	defer m.s.guard()()
 	m.s.W.Mails = append(m.s.W.Mails, Mail{
 		To: append([]string(nil), e.To...), Cc: append([]string(nil), e.Cc...), Bcc: append([]string(nil), e.Bcc...),
 		Subject: e.Subject, Text: e.TextBody, HTML: e.HTMLBody,
@@ -177,6 +221,7 @@ func (m smsSender) Send(ctx context.Context, number, text string) error {
 	if err := m.s.seam("sms.Send", nil); err != nil {
 		return err
 	}
+	defer m.s.guard()()
 	m.s.W.SMS = append(m.s.W.SMS, SMSMsg{Number: number, Code: text, Browser: BrowserOf(ctx), At: m.s.W.Now})
 	return nil
 }
@@ -184,7 +229,7 @@ func (m smsSender) Send(ctx context.Context, number, text string) error {
 type logWriter struct{ s *Stack }
 
 func (l logWriter) Write(p []byte) (int, error) {
-	l.s.point("log.Write")
+	defer l.s.guard()()
 	l.s.W.Log = append(l.s.W.Log, string(p))
 	return len(p), nil
 }
@@ -412,10 +457,14 @@ func NewStack(cfg Config) (*Stack, error) {
 	// the application
 	mux := http.NewServeMux()
 	mount := ab.Config.Paths.Mount
+	var routes http.Handler = ab.Config.Core.Router
+	if cfg.ModuleList {
+		routes = authboss.ModuleListMiddleware(ab)(routes)
+	}
 	if mount == "" {
-		mux.Handle("/", ab.Config.Core.Router)
+		mux.Handle("/", routes)
 	} else {
-		mux.Handle(mount+"/", http.StripPrefix(mount, ab.Config.Core.Router))
+		mux.Handle(mount+"/", http.StripPrefix(mount, routes))
 	}
 	mux.HandleFunc("/app/open", s.probeHandler("open"))
 	var prot http.Handler = http.HandlerFunc(s.probeHandler("prot"))
@@ -491,7 +540,9 @@ func (s *Stack) probeHandler(which string) http.HandlerFunc {
 		}
 		p.FullAuth = authboss.IsFullyAuthed(r)
 		p.TwoFA = authboss.IsTwoFactored(r)
-		s.probe = p
+		if !s.Conc {
+			s.probe = p
+		}
 		w.Header().Set("Content-Type", "text/plain")
 		w.WriteHeader(200)
 		io.WriteString(w, "probe:"+which)
